@@ -14,7 +14,8 @@ generic function + a caller instantiating it at int and float; function with a
 `@comptime` int parameter (monomorphised; as an entry point it fails ONLY at compile
 time: "Invalid entry point") + a caller instantiating it at two values (the same
 checked CFG is lowered twice -> `compile_cfg` return-var guard); struct with a method
-+ user; nested RECURSIVE capturing closure (`compile_local_func_def`,
++ user (takes the constructor as a value, which puts the generated, per-check numbered
+symbol `Pt.__new__.<n>` into the HUGR); nested RECURSIVE capturing closure (`compile_local_func_def`,
 `input_tys.append`) alone and inside a monomorphised function instantiated twice; a
 comptime function; a comptime function whose body raises a Python exception; a function
 failing type checking; a function whose comptime *expression* calls a Guppy function
@@ -45,6 +46,7 @@ validator; the others must fail at the expected stage.
 from __future__ import annotations
 
 import hashlib
+import os
 import json
 import re
 
@@ -113,7 +115,8 @@ class Pt:
 
 @guppy
 def use_struct(a: int) -> int:
-    p = Pt(a, 2)
+    mk = Pt
+    p = mk(a, 2)
     return p.norm1()
 
 
@@ -171,12 +174,16 @@ def py_call(x: int) -> int:
 #   check-error   GuppyError while checking (so compile fails the same way)
 #   compile-error check ok, GuppyError only when compiled as entry point
 #   compile-exc   check ok, the user's own Python exception escapes compile
+# the first QUICK_DEFS definitions form the quick tier's pool (fork cost ~0.15 s per history node)
 POOL = [
-    ("plain", "ok"), ("busy", "ok"), ("gen_caller", "ok"), ("mono", "compile-error"),
-    ("mono_caller", "ok"), ("Pt", "ok"), ("use_struct", "ok"), ("closure", "ok"),
-    ("mono_closure_caller", "ok"), ("ct", "ok"), ("ct_raises", "compile-exc"),
-    ("bad_type", "check-error"), ("py_call", "check-error"),
+    ("plain", "ok"), ("busy", "ok"), ("gen_caller", "ok"), ("closure", "ok"), ("ct", "ok"),
+    ("ct_raises", "compile-exc"), ("py_call", "check-error"), ("mono", "compile-error"),
+    ("use_struct", "ok"), ("mono_closure_caller", "ok"), ("bad_type", "check-error"),
 ]
+QUICK_DEFS = 8
+# definitions that are in the module (and reachable as dependencies) but are not
+# operated on directly, to keep the history tree affordable: Pt (through use_struct),
+# ident (through gen_caller), mono_caller, mono_closure (through mono_closure_caller)
 OPS = [(w, n) for n, _ in POOL for w in ("check", "compile")]
 
 _GLOBAL_ID = re.compile(r"^(.*)\.(\d+)$")
@@ -264,6 +271,7 @@ def observe(op: int, full: bool) -> dict:
         else:
             pkg = defn.compile_function() if hasattr(defn, "compile_function") else defn.compile()
             obs.update(kind="ok", text=canonical(pkg))
+            obs["renumbered"] = sum(1 for x in obs["text"] if x.startswith("m") and '.#' in x.split(" ", 3)[2])
             if full:
                 obs["valid"] = gload.validate(pkg)
     except GuppyError as e:
@@ -360,13 +368,21 @@ def _expect_ok(exp, what, obs) -> str | None:
     return f"unknown expectation {exp}"
 
 
+def _fork_workers(ctx) -> int:
+    # measured on the verification VM: forked compiler images cost ~65 ms per node and
+    # the total throughput does NOT grow with the number of concurrent forking processes
+    # (15 nodes/s with 1, 12 with 2, 9.5 with >= 4: page-table work is serialised), so
+    # concurrent unit processes only burn CPU: explore sequentially.
+    return int(os.environ.get("VERIF_FORK_WORKERS", "8"))
+
+
 def run(ctx) -> dict:
     from vlib import histx
     depth = 2 if ctx.quick else 3
-    n = len(OPS)
+    n = 2 * QUICK_DEFS if ctx.quick else len(OPS)
 
     # 1. references: the one-step histories, each in its own fresh image of the root
-    ref_res = histx.explore([None], n, 1, init, _ref_step, workers=ctx.workers, split=1)
+    ref_res = histx.explore([None], n, 1, init, _ref_step, workers=_fork_workers(ctx), split=1)
     REF.clear()
     for _ri, h, obs in ref_res.records:
         REF[h[0]] = obs
@@ -387,12 +403,12 @@ def run(ctx) -> dict:
                       {"history": [i for i in range(n) if op_str(i) == name], "pool_sanity": True})
 
     # 2. all histories up to `depth`; children compare against REF (inherited by fork)
-    res = histx.explore([None], n, depth, init, step, workers=ctx.workers, split=1)
+    res = histx.explore([None], n, depth, init, step, workers=_fork_workers(ctx), split=1)
 
     kinds: dict[str, int] = {}
     mism = 0
     distinct_sha = set()
-    compile_nodes = fail_after_fail = ok_after_fail = 0
+    compile_nodes = fail_after_fail = ok_after_fail = renumbered_nodes = 0
     tmp_offsets: dict[str, set] = {}
     by_node = {h: obs for _ri, h, obs in res.records}
     samples = []
@@ -404,6 +420,7 @@ def run(ctx) -> dict:
         distinct_sha.add((op, obs["sha"]))
         if what == "compile":
             compile_nodes += 1
+            renumbered_nodes += 1 if obs.get("renumbered") else 0
             tmp_offsets.setdefault(name, set()).add(obs["tmp"])
         if len(h) > 1 and by_node[h[:-1]]["kind"] != "ok":
             if obs["kind"] == "ok":
@@ -437,11 +454,12 @@ def run(ctx) -> dict:
         "distinct_nontrivial": nontrivial,
         "rule": "a node is non-trivial iff its history has >= 2 operations (the last operation runs in a session that already checked/compiled something)",
         "samples": samples,
-        "pool_definitions": len(POOL),
+        "pool_definitions": n // 2,
         "operations": n,
         "history_depth": depth,
         "reference_one_step_histories": len(REF),
         "compile_steps_compared": compile_nodes,
+        "compile_steps_with_renumbered_generated_names": renumbered_nodes,
         "observations_differing_from_fresh": mism,
         "outcome_kinds": dict(sorted(kinds.items())),
         "distinct_observations": len(distinct_sha),
